@@ -224,6 +224,15 @@ def nice_constraints(sc):
         for b in uu[i + 1:]:
             # two spellings of one uuid value share their canonical text, different values have different canonical texts
             cs.append(z3.Implies(z3.And(f_uuid_ok(a), f_uuid_ok(b), a != b, f_uuid_hyph(a) == a, f_uuid_hyph(b) == b), f_uuid_hyph(a) != f_uuid_hyph(b)))
+    from .engine import f_dec_scale, f_dec_canon
+    dd = byrole.get('decimal', [])
+    for i, a in enumerate(dd):
+        for b in dd[i + 1:]:
+            # two different decimal texts differ in value, in the number of digits they are written with, or in canonicity
+            cs.append(z3.Implies(z3.And(a != b, f_dec_ok(a), f_dec_ok(b)), z3.Or(f_dec_n(a) != f_dec_n(b), f_dec_scale(a) != f_dec_scale(b), f_dec_canon(a) != f_dec_canon(b))))
+    for t in dd:
+        k_ = 10
+        cs.append(z3.Implies(f_dec_ok(t), z3.And(f_dec_scale(t) >= 0, f_dec_scale(t) <= 12)))
     for t in byrole.get('semver', []):
         cs.append(z3.Implies(f_sv_ok(t), z3.And(f_sv_maj(t) >= 0, f_sv_min(t) >= 0, f_sv_pat(t) >= 0, f_sv_maj(t) < 1000, f_sv_min(t) < 1000, f_sv_pat(t) < 1000)))
     for role, ts in byrole.items():
